@@ -25,62 +25,64 @@ Definition mname_eqb (a b : mname) : bool :=
 Lemma mname_eqb_eq a b : mname_eqb a b = true -> a = b.
 Proof. destruct a, b; try discriminate; reflexivity. Qed.
 
-Definition mouse_event_code (m : mname) (mods : N) (motion : bool) : N :=
-  mouse_code m + 4 * mods + (if motion then 32 else 0).
-
-Definition all_mnames : list mname := [MLeft; MMiddle; MRight; MMove; MWheelDown; MWheelUp].
-Definition mouse_check : bool :=
-  forallb (fun m => forallb (fun press => forallb (fun motion =>
-    sweep1 8 (fun mods =>
-      let '(n, md) := mouse_fields (mouse_event_code m mods motion) press in
-      mname_eqb n m && (md =? (if press then N.lor mods MOD_PRESS else mods))))
-    [true; false]) [true; false]) all_mnames.
-Lemma mouse_check_ok :
-  forallb (fun m => forallb (fun press => forallb (fun motion =>
-    sweep1 8 (fun mods =>
-      let '(n, md) := mouse_fields (mouse_event_code m mods motion) press in
-      mname_eqb n m && (md =? (if press then N.lor mods MOD_PRESS else mods))))
-    [true; false]) [true; false]) all_mnames = true.
+(* the code's bit tests against the table of the protocol document, every code 0..255 *)
+Definition mouse_code_ok (press : bool) (code : N) : bool :=
+  match mouse_fields code press, mouse_name code with
+  | Some (n, md), Some m =>
+      mname_eqb n m && (md =? (if press then mouse_mods code + MOD_PRESS else mouse_mods code))
+  | None, None => true
+  | _, _ => false
+  end.
+Lemma mouse_check_ok : forallb (fun press => sweep1 256 (mouse_code_ok press)) [true; false] = true.
 Proof. vm_compute. reflexivity. Qed.
 
-Lemma mouse_fields_ok m mods press motion :
-  mods < 8 ->
-  mouse_fields (mouse_event_code m mods motion) press = (m, if press then N.lor mods MOD_PRESS else mods).
+Lemma mouse_fields_spec code press :
+  code < 256 ->
+  mouse_fields code press
+  = match mouse_name code with
+    | Some m => Some (m, if press then mouse_mods code + MOD_PRESS else mouse_mods code)
+    | None => None
+    end.
 Proof.
-  intros Hm. pose proof mouse_check_ok as H. rewrite forallb_forall in H.
-  assert (Hin : In m all_mnames) by (destruct m; cbn; tauto). specialize (H m Hin). cbv beta in H.
-  rewrite forallb_forall in H. assert (Hp : In press [true; false]) by (destruct press; cbn; tauto).
-  specialize (H press Hp). cbv beta in H. rewrite forallb_forall in H.
-  assert (Hmo : In motion [true; false]) by (destruct motion; cbn; tauto). specialize (H motion Hmo). cbv beta in H.
-  pose proof (sweep1_sound 8 _ H mods Hm) as Hs. cbv beta in Hs.
-  destruct (mouse_fields (mouse_event_code m mods motion) press) as [n md].
+  intros Hc. pose proof mouse_check_ok as H. rewrite forallb_forall in H.
+  assert (Hp : In press [true; false]) by (destruct press; cbn; tauto). specialize (H press Hp).
+  pose proof (sweep1_sound 256 _ H code Hc) as Hs. unfold mouse_code_ok in Hs.
+  destruct (mouse_fields code press) as [[n md]|], (mouse_name code) as [m|]; try discriminate; [|reflexivity].
   apply andb_true_iff in Hs. destruct Hs as [H1 H2]. apply mname_eqb_eq in H1. apply N.eqb_eq in H2. subst. reflexivity.
 Qed.
 
 Lemma last_byte_app pre fin : last_byte (pre ++ [fin]) = fin.
 Proof. unfold last_byte. apply last_last. Qed.
 
-Theorem single_mouse m mods press motion row col :
-  wf decmode_all prod_key_table (RMouse m mods press motion row col) = true ->
-  single (RMouse m mods press motion row col).
+(* every button code 0..255: a named button gives the mouse event, an unnamed one is not an event *)
+Theorem single_mouse code press row col :
+  wf decmode_all prod_key_table (RMouse code press row col) = true ->
+  single (RMouse code press row col).
 Proof.
-  cbn [wf]. intros Hwf. rewrite !andb_true_iff in Hwf. destruct Hwf as [[Hmods _] _].
+  cbn [wf]. intros Hwf. rewrite !andb_true_iff in Hwf. destruct Hwf as [[Hcode _] _].
   unfold single, prod_denote, denote. cbn [print].
-  set (code := mouse_code m + 4 * mods + (if motion then 32 else 0)).
   set (fin := if press then 77 else 109).
   replace (CSI ++ [60] ++ digits code ++ [59] ++ digits (col + 1) ++ [59] ++ digits (row + 1) ++ [fin])
     with ([27; 91; 60] ++ (digits code ++ [59] ++ digits (col + 1) ++ [59] ++ digits (row + 1)) ++ [fin])
     by list_eq.
-  fam_tac check_mouse; [| discriminate |].
-  - unfold pat_mouse. apply matches_seq_lit. rewrite <- !app_assoc.
+  assert (Hm : matches pat_mouse ([27; 91; 60] ++ (digits code ++ [59] ++ digits (col + 1) ++ [59] ++ digits (row + 1)) ++ [fin])).
+  { unfold pat_mouse. apply matches_seq_lit. rewrite <- !app_assoc.
     apply MSeq; [apply matches_num|]. apply matches_seq_lit. apply MSeq; [apply matches_num|].
-    apply matches_seq_lit. apply MSeq; [apply matches_num|]. apply MSet. unfold fin. destruct press; reflexivity.
-  - payload_unfold. unfold dec_mouse.
+    apply matches_seq_lit. apply MSeq; [apply matches_num|]. apply MSet. unfold fin. destruct press; reflexivity. }
+  assert (Hp : ev_payload decmode_codes decstatus_codes 7
+                 ([27; 91; 60] ++ (digits code ++ [59] ++ digits (col + 1) ++ [59] ++ digits (row + 1)) ++ [fin])
+               = match mouse_name code with
+                 | Some m => Some (EMouse m (if press then mouse_mods code + MOD_PRESS else mouse_mods code) row col)
+                 | None => None
+                 end).
+  { payload_unfold. unfold dec_mouse.
     rewrite (sl_mid [27; 91; 60] _ [fin]), numbers3, !checked_dec_succ.
     rewrite app_assoc, last_byte_app.
     replace (fin =? 77) with press by (unfold fin; destruct press; reflexivity).
-    change code with (mouse_event_code m mods motion).
-    rewrite (mouse_fields_ok m mods press motion) by lia. reflexivity.
+    rewrite (mouse_fields_spec code press) by lia. destruct (mouse_name code); reflexivity. }
+  destruct (mouse_name code) as [m|].
+  - eapply (fam_single _ _ _ _ check_mouse); [exact Hm| discriminate| exact Hp].
+  - eapply (fam_single_raw _ _ _ check_mouse); [exact Hm| discriminate| exact Hp].
 Qed.
 
 (* ---- size: CSI 8 ; h ; w t CSI 4 ; h ; w t ---- *)
